@@ -227,7 +227,9 @@ def build(case):
         Aop = sp.linop.MatMul([n, 1], Am)
         y = np.abs(Am @ xt)
         x0 = np.ones((n, 1), np.complex128)
-        alg = sp.alg.GerchbergSaxton(Aop, y, x0, max_iter=mi, tol=0, lamb=0.1)
+        if case.get("gs_fit"):
+            y = np.abs(Am @ x0)          # the initial point's magnitudes fit the data exactly (a regularised update still moves it)
+        alg = sp.alg.GerchbergSaxton(Aop, y, x0, max_iter=mi, tol=0, lamb=case.get("gs_lamb", 0.1))
         return alg, (lambda: [np.asarray(alg.x)]), nobreak, {}
     raise ValueError(k)
 
@@ -398,6 +400,8 @@ def st_instance(draw, kinds=ALG_KINDS, max_iter=st.integers(0, 12)):
         c["cplx"] = False
     if k == "GerchbergSaxton":
         c["n"] = max(2, c["n"])
+        c["gs_fit"] = draw(st.booleans())
+        c["gs_lamb"] = draw(st.sampled_from([0.1, 0.5, 1e-3]))
     return c
 
 
@@ -632,6 +636,8 @@ def check_app(case):
         r.fail("app-run-raises:%s" % k, "%s: %s" % (type(e).__name__, e))
         return r
     r.check(count["n"] <= app.alg.max_iter, "app:exceeds-max-iter:%s" % k, "%d updates, alg.max_iter %d" % (count["n"], app.alg.max_iter))
+    # ... and within the budget the CALLER asked for (an app that raises the budget on its own exceeds it)
+    r.check(count["n"] <= mi, "app:exceeds-requested-max-iter:%s" % k, "%d updates for a requested max_iter of %d" % (count["n"], mi))
     r.check(app.alg.iter == count["n"], "app:counter:%s" % k, "alg.iter %s after %d updates" % (app.alg.iter, count["n"]))
     r.check(app.alg.done(), "app:returned-before-done:%s" % k)
     if held is not None:
